@@ -51,7 +51,7 @@ def run(pid, tier, seed):
         # + every format string the repository's own tests use (inputs only)
         hf = testcorpus.harvest(V.REPO)[0]
         fmts = fmts + [f for f in hf if f not in set(fmts)]
-        dele = delegated(work, [f for f in fmts if 0 not in f], verdict)
+        dele = delegated(work, fmts, verdict)
         for f in fmts:
             lines.append("F %s %s" % (f.hex() or "-", " ".join(d.hex() for d in dele.get(f, []))))
         nf = len(fmts)
